@@ -954,7 +954,7 @@ case('dict.set', 'set/dict_set', lambda e: as_dict(*dict_of(list(e.pairs()) + [(
 case('dict.set.many', 'set/dict_set_many',
      lambda e: as_dict(*dict_of(list(e.pairs()) + [(e.i, e.j), (e.k, e.r)])),
      api=lambda e, P, name: M(name, e.m(), e.m2()), text='$m.set($m2)', uses='c d i j k r',
-     dom=lambda e: m_dom(e) and -3 <= e.i <= 3, nones=False, pres=('tuple',))
+     dom=lambda e: m_dom(e) and 0 <= e.i <= 1, nones=False, pres=('tuple',))
 case('dict.set.inline', 'set/dict_set_many_inline',
      lambda e: as_dict(*dict_of([('a', e.i), ('z', e.j)] + [('a', e.v), ('b', e.k)])),
      text='$mz.set(a => $v, b => $k)', uses='i j v k', pres=('tuple',))
@@ -987,7 +987,7 @@ case('times.int.list', '#operator_*/int_by_list', lambda e: [x for _ in range(e.
      text='$i * $c', uses='c i', dom=lambda e: 0 <= e.i <= 3, pres=('tuple',))
 case('plus.dicts', '#operator_+/combine_dicts',
      lambda e: as_dict(*dict_of(list(e.pairs()) + [(e.i, e.j), (e.k, e.r)])),
-     text='$m + $m2', uses='c d i j k r', dom=lambda e: m_dom(e) and -3 <= e.i <= 3, nones=False, pres=('tuple',))
+     text='$m + $m2', uses='c d i j k r', dom=lambda e: m_dom(e) and 0 <= e.i <= 1, nones=False, pres=('tuple',))
 case('len.dict', 'len/dict_len', lambda e: len(m_model(e)[0]),
      api=lambda e, P, name: M(name, e.m()), text='$m.len()', uses='c d', dom=m_dom, nones=False, pres=('tuple',))
 case('len.set', 'len/set_len', lambda e: len(uniq(e.t)),
